@@ -2043,6 +2043,9 @@ func (fc *fnCtx) execConvert(st *State, x *ssa.Convert) {
 			hn, hs := fc.heapElemName(sl.Elem())
 			h := fc.heapGet(st, hn, hs)
 			fc.assume(st, fmt.Sprintf("(and (= (s.len %s) (sl.len %s)) (forall ((i Int)) (=> (and (<= 0 i) (< i (sl.len %s))) (= (s.at %s i) (select (select %s (sl.base %s)) (+ (sl.off %s) i))))))", r.T, v.T, v.T, r.T, h, v.T, v.T))
+		} else if ok {
+			// string([]rune): every rune encodes to 1..4 bytes
+			fc.assume(st, fmt.Sprintf("(and (<= (sl.len %s) (s.len %s)) (<= (s.len %s) (* 4 (sl.len %s))))", v.T, r.T, r.T, v.T))
 		}
 		fc.vals[x] = r
 	case isString(from):
@@ -2057,7 +2060,16 @@ func (fc *fnCtx) execConvert(st *State, x *ssa.Convert) {
 			fc.heapSet(st, hn, hs, fmt.Sprintf("(store %s %s %s)", h, r, row))
 			fc.setVal(x, fmt.Sprintf("(mkslice %s 0 (s.len %s) (s.len %s))", r, v.T, v.T))
 		} else {
-			fc.vals[x] = fc.freshVal(st, x.Name(), to)
+			var ref string
+			if ok {
+				ref = fc.allocRef(st, x.Name())
+			}
+			r := fc.freshVal(st, x.Name(), to)
+			fc.vals[x] = r
+			if ok {
+				// []rune(s): a fresh slice of 1 rune per 1..4 bytes (invalid bytes give one U+FFFD each)
+				fc.assume(st, fmt.Sprintf("(and (= (sl.base %s) %s) (= (sl.off %s) 0) (<= (sl.len %s) (s.len %s)) (<= (s.len %s) (* 4 (sl.len %s))))", r.T, ref, r.T, r.T, v.T, v.T, r.T))
+			}
 		}
 	default:
 		if fc.S().SortOf(from) == fc.S().SortOf(to) {
@@ -2133,6 +2145,10 @@ func (fc *fnCtx) execTypeAssert(st *State, x *ssa.TypeAssert) {
 		tag := fc.S().Tag(x.AssertedType)
 		ok = eq("(if.tag "+v.T+")", fmt.Sprintf("%d", tag))
 		val = Val{T: fc.unboxIface(v.T, x.AssertedType), Ty: x.AssertedType}
+		// the dynamic value of an interface is a well-formed value of its type
+		if rf := fc.S().RangeFact(x.AssertedType, val.T, 4); rf != "true" && !fc.specMode {
+			fc.assume(st, implies(ok, rf))
+		}
 	}
 	if x.CommaOk {
 		okn := fc.defs.Define(x.Name()+".ok", "Bool", ok)
@@ -2184,7 +2200,12 @@ func (fc *fnCtx) execSlice(st *State, x *ssa.Slice) {
 		g := fmt.Sprintf("(and (<= 0 %s) (<= %s %s) (<= %s %s) (<= %s (sl.cap %s)))", lo, lo, hi, hi, mx, mx, base.T)
 		fc.oblige(st, "slice", "", g, "slice bounds in range", x.Pos(), false)
 		fc.assume(st, g)
-		fc.setVal(x, fmt.Sprintf("(mkslice (sl.base %s) (+ (sl.off %s) %s) (- %s %s) (- %s %s))", base.T, base.T, lo, hi, lo, mx, lo))
+		sub := fc.setVal(x, fmt.Sprintf("(mkslice (sl.base %s) (+ (sl.off %s) %s) (- %s %s) (- %s %s))", base.T, base.T, lo, hi, lo, mx, lo))
+		if lo != "0" && (!isAtom(base.T) || fc.defs.byName[base.T] != nil || strings.HasPrefix(base.T, "c.") || strings.HasPrefix(base.T, "in.")) && !fc.specMode {
+			// positions of the sub-slice are positions of the slice, shifted (creates the term
+			// that lets quantified facts about the whole slice fire on the sub-slice)
+			fc.assume(st, fmt.Sprintf("(forall ((i Int)) (! (= (sl.ix %s i) (sl.ix %s (+ i %s))) :pattern ((sl.ix %s i))))", sub.T, base.T, lo, sub.T))
+		}
 	case *types.Pointer: // *array
 		arr := u.Elem().Underlying().(*types.Array)
 		n := fmt.Sprintf("%d", arr.Len())
